@@ -618,6 +618,33 @@ int main(int argc, char **argv) {
     }
   }
 
+  // ---- csg's own unit set: derived units are the quotients of its base units ----
+  {
+    CsgUnits cu;
+    struct Q { const char *name; double derived, quotient; };
+    std::vector<Q> qs;
+    qs.push_back({"force_unit = energy_unit / distance_unit", UC.convert(MolarForceUnit::kilojoules_per_mole_nanometer, cu.force_unit),
+                  UC.convert(MolarEnergyUnit::kilojoules_per_mole, cu.energy_unit) / UC.convert(DistanceUnit::nanometers, cu.distance_unit)});
+    qs.push_back({"force_unit = energy_unit / distance_unit (from kcal/mol/Angstrom)", UC.convert(MolarForceUnit::kilocalories_per_mole_angstrom, cu.force_unit),
+                  UC.convert(MolarEnergyUnit::kilocalories_per_mole, cu.energy_unit) / UC.convert(DistanceUnit::angstroms, cu.distance_unit)});
+    qs.push_back({"velocity_unit = distance_unit / time_unit", UC.convert(VelocityUnit::nanometers_per_picosecond, cu.velocity_unit),
+                  UC.convert(DistanceUnit::nanometers, cu.distance_unit) / UC.convert(TimeUnit::picoseconds, cu.time_unit)});
+    qs.push_back({"velocity_unit = distance_unit / time_unit (from Angstrom/fs)", UC.convert(VelocityUnit::angstroms_per_femtosecond, cu.velocity_unit),
+                  UC.convert(DistanceUnit::angstroms, cu.distance_unit) / UC.convert(TimeUnit::femtoseconds, cu.time_unit)});
+    for (auto &q : qs) {
+      R.eval("csgunits/derived-is-quotient-of-base");
+      nt(std::string("csgunits/") + q.name);
+      if (!(std::fabs(q.derived - q.quotient) <= 1e-12 * std::fabs(q.quotient)))
+        R.violation("csgunits/derived-unit-not-quotient-of-base-units", "a derived unit of csg::CsgUnits is not the quotient of its base units",
+                    J().s("relation", q.name).d("through_derived_unit", q.derived).d("through_base_units", q.quotient));
+    }
+    // csg stores nm, ps, amu, e, kJ/mol (what every reader converts to and every writer converts from)
+    R.eval("csgunits/base-units");
+    if (cu.distance_unit != DistanceUnit::nanometers || cu.time_unit != TimeUnit::picoseconds || cu.mass_unit != MassUnit::atomic_mass_units ||
+        cu.charge_unit != ChargeUnit::e || cu.energy_unit != MolarEnergyUnit::kilojoules_per_mole)
+      R.violation("csgunits/base-units", "csg::CsgUnits base units are not nm, ps, amu, e, kJ/mol", J().s("note", "see csg/include/votca/csg/units.h"));
+  }
+
   // ---- factors hard-coded in the I/O modules ---------------------------------
   try { io_writers(); } catch (std::exception &e) { R.inconclusive(std::string("io writer probe failed: ") + e.what()); }
   try { io_readers(); } catch (std::exception &e) { R.inconclusive(std::string("io reader probe failed: ") + e.what()); }
@@ -626,8 +653,12 @@ int main(int argc, char **argv) {
     nt(base);
     R.eval("io/factor-vs-declared-unit");
     J w; w.s("module", o.module).s("quantity", o.quantity).d("observed_factor", o.observed).s("note", o.note).s("file", o.file);
+    // the key carries the size of the disagreement (4 significant digits), so that a recorded finding does not cover a
+    // different disagreement of the same module and quantity
+    char rb[40];
+    snprintf(rb, sizeof rb, "/ratio=%.4g", o.observed / o.declared);
     if (!agree4(o.observed, o.declared))
-      R.violation(base + "-vs-declared-unit", "factor applied by the I/O module differs from UnitConverter between csg's unit and the unit the module declares",
+      R.violation(base + "-vs-declared-unit" + rb, "factor applied by the I/O module differs from UnitConverter between csg's unit and the unit the module declares",
                   J().s("module", o.module).s("quantity", o.quantity).d("observed_factor", o.observed).d("factor_from_declared_unit", o.declared).d("ratio", o.observed / o.declared).s("note", o.note).s("file", o.file));
     if (!std::isnan(o.convention)) {
       R.eval("io/factor-vs-format-convention");
